@@ -101,7 +101,7 @@ def main(run):
                 "is re-executed from the identical pre-state (deepcopy + generator states) with the k-th invocation raising "
                 "InjectedFault; asserted: the same exception object propagates, the public snapshot (importance_values, variances, "
                 "marginal_loss, model_loss, marginal_prediction incl. key sets) is equal before and after; injected exception types cycle "
-                "through 11 classes (custom, ValueError, KeyError, IndexError, RuntimeError, TypeError, ZeroDivisionError, ...); after "
+                "through 20 classes (custom, ValueError, KeyError, IndexError, RuntimeError, TypeError, ZeroDivisionError, StopIteration, ...); after "
                 "resuming the stream for 3 calls the C01 identity holds exactly after each and the estimates equal those of a twin that "
                 "never saw the failed call (same storage content and generator state), i.e. no hidden estimate state changed; plus random multi-fault schedules (up to 3 faults, "
                 "consecutive faulty calls); evaluations = injected faults judged; non-trivial = distinct (config, call, position, "
